@@ -6,6 +6,10 @@ import JaqalProofs.Props.C20
 import JaqalProofs.Lemmas.PassesEnv
 import JaqalProofs.Lemmas.PassesMap
 import JaqalProofs.Lemmas.PassesSubs
+import JaqalProofs.Lemmas.PassesLegalSubs
+import JaqalProofs.Lemmas.PassesLegalMacros
+import JaqalProofs.Lemmas.PassesLegalRebuild
+import JaqalProofs.Lemmas.PassesLegalDeep
 /-!
 # C10 — the passes commute up to meaning, are idempotent, and the parser's flags are the passes
 
@@ -48,20 +52,32 @@ Specification of meaning: `Sem.meaning` (`JaqalModel/Spec/Sem.lean`).
                         `RecursionError` converted (by definition); `C10_flags_plain`; `C10_flags_ok`: on success the
                         result IS the passes applied to the plain parse (the check commutes with the passes: they keep
                         the fundamental registers).
-* `C10_legal_preserved_*` the parts of "a pass keeps the circuit legal" that are proved; `C10_legal_preserved_full` (NOT
-                        proved) is the full statement, used as a hypothesis by `C10_applicable_of_legal`.
+* `C10_legal_preserved` EVERY pass keeps a legal circuit legal (`Legal` = `ExpandMacros.WellFormed` ∧ `FillIn.WellFormed` ∧
+                        `Deep`), proved: `expand_subcircuits` (`Lemmas/PassesLegalSubs.lean`), `expand_macros`
+                        (`PassesLegalMacros.lean`), `fill_in_let` / `fill_in_map` (`PassesLegalRebuild.lean`, on top of
+                        `Lemmas/BuiltWellFormed.lean: built_gateShape` — what `Builder.build` guarantees about every gate
+                        statement it makes, for any S-expression), `Deep` (`PassesLegalDeep.lean`).  Hence
+                        `C10_applicable_of_legal`: from a legal circuit every sequence without `fill_in_map` is applicable
+                        (`fill_in_map` needs its side condition in addition).
 * `C10_legal_text_partial` text of the result: generation succeeds (`C20_gen_total`) for printable results, and — given
                         C01's round-trip statement as a hypothesis — re-parses to a circuit of the same meaning.
 
-## Findings on the real code (see the differential test `c10_diff.py`; each is pinned by a theorem below)
+## What is NOT proved
 
-* `C10_counterexample_bounding_macro`: with a macro NAMED `prepare_all`, `expand_subcircuits ; expand_macros` replaces the
-  inserted bounding statement by the macro's body, the other order does not: the two orders differ in meaning.  Hence
-  `NoBoundingMacro` in `Legal`.
-* a macro whose body holds a subcircuit, called inside `< >` or `subcircuit { }` (the builder accepts the call): after
-  `expand_macros` no text denotes the circuit; `fill_in_map` inside a macro whose parameter is named like the register:
-  the generated text captures the reference.  Both are outside `Printable` / C01's hypothesis, which is why
-  `C10_legal_text_partial` has them as hypotheses.
+* `C10_idempotent_let_full` / `C10_idempotent_map_full`: the SYNTACTIC idempotence of the two rebuilding passes (needs
+  `build (unbuild c) = c` for the embedded-object S-expressions the visitors make: totality and determinacy of the rebuild;
+  `Lemmas/BuilderTotal.lean` covers parser-shaped input only).  The meaning-level statement `C10_idempotent_meaning` is
+  proved for all four passes; the differential test checks the syntactic one on the real code (oracle `idempotent`).
+* that a parser-produced circuit is `Legal` (the builder establishes `ExpandMacros.WellFormed`: `built_gateShape` is the gate
+  half; the value half — `okVal` / `goodVal` of built values, `inScope` — is open, see `Lemmas/BuiltWellFormed.lean`).
+
+## Findings on the real code, all repaired in /repo (see `c10_diff.py`, where each is now an ordinary passing oracle)
+
+* a macro NAMED `prepare_all` made `expand_subcircuits ; expand_macros` replace the inserted bounding statement by the macro's
+  body (`98a447d`: the pass now refuses, `C10_bounding_macro_refused`; `NoBoundingMacro` follows from success);
+* a macro holding a subcircuit called inside `< >` / `subcircuit { }` made `expand_macros` build a circuit no text denotes
+  (`7f310a6`: the builder refuses the call); `fill_in_map` inside a macro whose parameter is named like the register wrote a
+  reference the generated text captures (`8822e40`: the pass refuses).
 -/
 namespace Jaqal.Passes
 open Jaqal Jaqal.Sem Jaqal.Builder
@@ -75,6 +91,10 @@ header lists).  (That no macro is named like a bounding gate of `expand_subcircu
 structure Legal (c : Circuit) : Prop where
   wf1 : ExpandMacros.WellFormed c = true
   wf2 : FillIn.WellFormed c
+  /-- every qubit reference / register argument goes through a chain that ends in a fundamental register sized by a number
+  or a let (`Lemmas/PassesLegalDeep.lean`): what `register` / `map` statements make; `fill_in_map` needs it to keep
+  `ExpandMacros.WellFormed` (`regBuilt` of a slice alias says nothing about its source) -/
+  deep : Deep c
 
 /-- the overrides of the first `fill_in_let` of a sequence -/
 def firstLet : List Pass → Option (List (String × Num))
@@ -496,12 +516,7 @@ theorem C10_flags_ok (cfg : Config) (em el elm : Bool) (ov : List (String × Num
 
 /-! ## Legality is kept -/
 
-/-- NOT proved in full: every pass keeps a legal circuit legal. Proved below: `FillIn.WellFormed` and `NoBoundingMacro` of the result for `expand_subcircuits`, `fill_in_let` and
-`fill_in_map`, and `NoBoundingMacro` for `expand_macros`. Missing: that
-the REBUILD of `fill_in_let` / `fill_in_map` re-establishes `ExpandMacros.WellFormed` (gate statements match the gate
-definitions the builder chooses: no theorem of the builder component says so yet), and the block invariants of the
-statements `expand_macros` substitutes. The differential test checks the property it stands for on the real code
-(oracles `only_jaqal_errors`, `legal_after_pass`, corr `apply_seq` step by step). -/
+/-- every pass keeps a legal circuit legal (`C10_legal_preserved`, proved below) -/
 def C10_legal_preserved_full : Prop :=
   ∀ (p : Pass) (c c' : Circuit), Legal c → apply p c = .ok c' → Legal c'
 
@@ -537,7 +552,7 @@ mutual
 end
 
 /-- `expand_subcircuits` keeps `FillIn.WellFormed` (block invariants, header lists) -/
-theorem C10_legal_preserved_subs (c c' : Circuit) (hL : Legal c) (h : apply .subs c = .ok c') :
+theorem C10_legal_preserved_subs_wf2 (c c' : Circuit) (hL : Legal c) (h : apply .subs c = .ok c') :
     FillIn.WellFormed c' := by
   obtain ⟨it, b, hb⟩ := ExpandMacros.WellFormed_body_block hL.wf1
   have hbody := ExpandSubcircuits.C09_shape_body hb h
@@ -611,13 +626,55 @@ theorem C10_legal_preserved_map (c c' : Circuit) (hL : Legal c) (h : apply .map 
   obtain ⟨bs, _, hr⟩ := FillIn.fillInMap_rebuilt hL.wf2 h
   exact rebuilt_legal hL hr hL.wf2.regs
 
-/-- with legality preservation as a hypothesis, a legal circuit makes every sequence without `fill_in_map` applicable
-(`fill_in_map` additionally needs its side condition at its step) -/
-theorem C10_applicable_of_legal (hpres : C10_legal_preserved_full) (ρ : Env) : ∀ (π : List Pass) (c : Circuit), Legal c →
+/-- **`expand_subcircuits` keeps a legal circuit legal** -/
+theorem C10_legal_preserved_subs (c c' : Circuit) (hL : Legal c) (h : apply .subs c = .ok c') : Legal c' :=
+  ⟨expandSubcircuits_wellFormed c c' hL.wf1 h, C10_legal_preserved_subs_wf2 c c' hL h, expandSubcircuits_deep c c' hL.wf1 hL.deep h⟩
+
+/-- **`expand_macros` keeps a legal circuit legal** -/
+theorem C10_legal_preserved_macros (p : Bool) (c c' : Circuit) (hL : Legal c) (h : apply (.macros p) c = .ok c') : Legal c' :=
+  ⟨expandMacros_wellFormed p c c' hL.wf1 h, expandMacros_wf2 p c c' hL.wf2 h, expandMacros_deep p c c' hL.wf1 hL.deep h⟩
+
+/-- **`fill_in_let` keeps a legal circuit legal**: the gate statements of the rebuild are what `Builder.build` makes
+(`built_gateShape`), the values what `LetFiller` makes of well-formed values -/
+theorem C10_legal_preserved_let' (ov : List (String × Num)) (c c' : Circuit) (hL : Legal c) (h : apply (.let_ ov) c = .ok c') :
+    Legal c' :=
+  ⟨fillInLet_wellFormed ov c c' hL.wf1 hL.wf2 h, C10_legal_preserved_let ov c c' hL h, fillInLet_deep ov c c' hL.wf2 hL.deep h⟩
+
+/-- **`fill_in_map` keeps a legal circuit legal** -/
+theorem C10_legal_preserved_map' (c c' : Circuit) (hL : Legal c) (h : apply .map c = .ok c') : Legal c' :=
+  ⟨fillInMap_wellFormed c c' hL.wf1 hL.wf2 hL.deep h, C10_legal_preserved_map c c' hL h,
+    fillInMap_deep c c' hL.wf1 hL.wf2 hL.deep h⟩
+
+/-- **C10_legal_preserved.** Every pass keeps a legal circuit legal. -/
+theorem C10_legal_preserved : C10_legal_preserved_full := by
+  intro p c c' hL h
+  cases p with
+  | let_ ov => exact C10_legal_preserved_let' ov c c' hL h
+  | macros pr => exact C10_legal_preserved_macros pr c c' hL h
+  | subs => exact C10_legal_preserved_subs c c' hL h
+  | map => exact C10_legal_preserved_map' c c' hL h
+
+/-- a legal circuit makes every sequence of `expand_subcircuits` / `expand_macros` applicable (no hypothesis) -/
+theorem C10_applicable_of_legal_expansions (ρ : Env) : ∀ (π : List Pass) (c : Circuit), Legal c →
+    (∀ p ∈ π, p matches .macros _ | .subs) → Applicable ρ π c
+  | [], _, _, _ => trivial
+  | p :: ps, c, hL, hnm => by
+    have hp := hnm p (by simp)
+    refine ⟨hL, ?_, fun c' h => C10_applicable_of_legal_expansions ρ ps c' ?_ (fun q hq => hnm q (by simp [hq]))⟩
+    · cases p <;> trivial
+    · cases p with
+      | macros pr => exact C10_legal_preserved_macros pr c c' hL h
+      | subs => exact C10_legal_preserved_subs c c' hL h
+      | let_ ov => simp at hp
+      | map => simp at hp
+
+/-- a legal circuit makes every sequence without `fill_in_map` applicable (`fill_in_map` additionally needs its side
+condition at its step: `stepSide`) -/
+theorem C10_applicable_of_legal (ρ : Env) : ∀ (π : List Pass) (c : Circuit), Legal c →
     (∀ p ∈ π, p matches .let_ _ | .macros _ | .subs) → Applicable ρ π c
   | [], _, _, _ => trivial
   | p :: ps, c, hL, hnm => by
-    refine ⟨hL, ?_, fun c' h => C10_applicable_of_legal hpres ρ ps c' (hpres p c c' hL h) (fun q hq => hnm q (by simp [hq]))⟩
+    refine ⟨hL, ?_, fun c' h => C10_applicable_of_legal ρ ps c' (C10_legal_preserved p c c' hL h) (fun q hq => hnm q (by simp [hq]))⟩
     have := hnm p (by simp)
     cases p <;> trivial
 
@@ -627,10 +684,11 @@ theorem C10_applicable_of_legal (hpres : C10_legal_preserved_full) (ρ : Env) : 
 generated (`C20_gen_total`); and GIVEN C01's round-trip statement for `c'` (hypothesis `hC01`: the generated text parses,
 with the same configuration, to a circuit that means what `c'` means — NOT `==`: after `expand_subcircuits` the re-parsed
 circuit is the spliced form), the text of the result re-parses to a circuit that means what the canonical form says.
-`Printable c'` and `hC01` are hypotheses because they FAIL on the real code for two families of parser-produced circuits
-(see the header: a macro holding a subcircuit called inside a parallel block or subcircuit; `fill_in_map` inside a macro with
-a parameter named like the register): the differential test pins both (`no_illegal_nesting_after_pass`,
-`no_parameter_capture_after_pass`). -/
+`Printable c'` and `hC01` are hypotheses: `Printable` of a pass result is not proved (before the repairs `7f310a6` /
+`8822e40` it FAILED for two families of parser-produced circuits — a macro holding a subcircuit called inside a parallel block
+or subcircuit; `fill_in_map` inside a macro with a parameter named like the register — which the builder / the pass now refuse),
+and C01's round trip (`C01_roundtrip_partial`) is itself conditional. The differential test checks the whole statement on the
+real code (`legal_after_pass`, `no_illegal_nesting_after_pass`, `no_parameter_capture_after_pass`). -/
 theorem C10_legal_text_partial (cfg : Config) (ρ : Env) (π : List Pass) (c c' : Circuit) (s : Sem)
     (happ : Applicable ρ π c) (ha : applySeq π c = .ok c') (hm : meaning (envAfter ρ π) c = .ok s)
     (hprint : Generator.Printable c')
@@ -666,7 +724,9 @@ theorem C10_bounding_macro_refused :
 
 /-- the running example of C05 / C06 (`let n 4; let k 1; register r[n]; map a r[k:n:2]; macro M x n {…}; loop k { M r[k] 2 };
 subcircuit n { X a[k] }`) is legal -/
-theorem exC_legal : Legal FillIn.exC := ⟨by decide, FillIn.exC_wellFormed⟩
+theorem exC_legal : Legal FillIn.exC :=
+  ⟨by decide, FillIn.exC_wellFormed, by
+    simp [Deep, FillIn.exC, FillIn.exR, FillIn.exA, FillIn.ArgsAll, FillIn.ArgsAllList, deepVal, baseBuilt]⟩
 
 /-- … a one-pass sequence is applicable from it (the later steps of longer sequences speak about the intermediate
 circuits), the pass succeeds, and the original has a meaning under the overrides: the hypotheses of `C10_canonical` are
@@ -680,7 +740,12 @@ example : Applicable [] [.subs] FillIn.exC ∧ (∃ c', apply .subs FillIn.exC =
 /-- a two-pass sequence: `expand_subcircuits` then `expand_macros` on the example of C09 (a subcircuit inside a macro and in
 the body), with the intermediate circuit computed -/
 theorem exSub_legal : Legal ExpandSubcircuits.exCircuit ∧ Legal ExpandSubcircuits.exResult := by
-  refine ⟨⟨by decide, ⟨⟨_, rfl⟩, ?_, ?_, ?_, ?_⟩⟩, ⟨by decide, ⟨⟨_, rfl⟩, ?_, ?_, ?_, ?_⟩⟩⟩
+  have d1 : Deep ExpandSubcircuits.exCircuit := by
+    simp [Deep, ExpandSubcircuits.exCircuit, ExpandSubcircuits.exF, ExpandSubcircuits.exR, FillIn.ArgsAll,
+      FillIn.ArgsAllList, deepVal, baseBuilt]
+  have d2 : Deep ExpandSubcircuits.exResult := by
+    simp [Deep, ExpandSubcircuits.exResult, ExpandSubcircuits.exR, FillIn.ArgsAll, FillIn.ArgsAllList, deepVal, baseBuilt]
+  refine ⟨⟨by decide, ⟨⟨_, rfl⟩, ?_, ?_, ?_, ?_⟩, d1⟩, ⟨by decide, ⟨⟨_, rfl⟩, ?_, ?_, ?_, ?_⟩, d2⟩⟩
   all_goals first
     | (intro v hv; simp [ExpandSubcircuits.exCircuit, ExpandSubcircuits.exResult] at hv; done)
     | (intro v hv; simp only [ExpandSubcircuits.exCircuit, ExpandSubcircuits.exResult, List.mem_singleton] at hv; subst hv; first | rfl | exact ⟨by decide, by decide⟩ | simp [FillIn.BlocksOK, FillIn.BlocksOKList, ExpandSubcircuits.exF])
@@ -718,6 +783,11 @@ end Jaqal.Passes
 #print axioms Jaqal.Passes.C10_flags_plain
 #print axioms Jaqal.Passes.C10_flags_ok
 #print axioms Jaqal.Passes.C10_legal_preserved_subs
+#print axioms Jaqal.Passes.C10_legal_preserved_macros
+#print axioms Jaqal.Passes.C10_legal_preserved_let'
+#print axioms Jaqal.Passes.C10_legal_preserved_map'
+#print axioms Jaqal.Passes.C10_legal_preserved
+#print axioms Jaqal.Passes.C10_applicable_of_legal_expansions
 #print axioms Jaqal.Passes.C10_legal_preserved_let
 #print axioms Jaqal.Passes.C10_legal_preserved_map
 #print axioms Jaqal.Passes.C10_applicable_of_legal
